@@ -33,7 +33,7 @@ PROPS = {
         "partial": "",
     },
     "C04": {
-        "counts": {"quick": 120, "thorough": 6000},
+        "counts": {"quick": 100, "thorough": 6000},
         "model_input": "impl",
         "rule": "one case = the programs of 2-8 client goroutines (begin ro/rw, get, put, delete, full and range scans "
                 "through the transaction iterators, commit/rollback, calls after the end, writes in read-only "
